@@ -391,8 +391,9 @@ def leaf_cases():
 
 
 def _decided(cx, cond):
-    """truth value of cond under the current path condition, None if not determined"""
+    """truth value of cond under the current path condition, None if not determined (or not determined within 5 s)"""
     s = z3.Solver()
+    s.set("timeout", 5000)
     from vfkit import relang
     fs = list(cx.pc) + [cond]
     pairs, clauses, _ = relang.exact_abstraction(fs + [z3.Not(cond)])
@@ -574,4 +575,145 @@ def semantic_cases():
                                                   "luqum.elasticsearch.visitor.ElasticsearchQueryBuilder.visit_bool_operation",
                                                   "luqum.elasticsearch.visitor.ElasticsearchQueryBuilder.visit_unknown_operation",
                                                   "luqum.elasticsearch.tree.EOperation.json", "luqum.elasticsearch.tree.EBoolOperation.json"]))
+    return cases
+
+
+# ------------------------------------------------------------------------------------------------ C06-V  (visitor -> item -> clause)
+def visit_leaf_cases():
+    """P: the REAL visit of a word / phrase / range / fuzzy / proximity / boost node in an arbitrary field context yields one item
+    whose JSON is the documented clause - for every term text and every name (symbolic strings), per field path, analysed or
+    not, per-field options, match_word_as_phrase, own / inherited / no name."""
+    from luqum.naming import set_name
+    cases = []
+    field_ctx = {"default": (None, "text"), "t": (["t"], "t"), "n.x": (["n", "x"], "n.x")}
+    for fkey, (prefix, field) in field_ctx.items():
+        for analysed in (True, False):
+            for mwp in (False, True):
+                for naming in ("none", "own", "inherited", "own-over-inherited"):
+                    for mod in ("plain", "fuzzy", "boost", "boosted-fuzzy"):
+                        if (mwp and (not analysed or mod != "plain")) or (fkey == "n.x" and naming in ("own-over-inherited",) and mod != "plain"):
+                            continue
+
+                        def run(cx, prefix=prefix, field=field, analysed=analysed, mwp=mwp, naming=naming, mod=mod, fkey=fkey):
+                            opts = {"t": {"analyzer": "english"}} if fkey == "t" else {}
+                            b = EV.ElasticsearchQueryBuilder(default_field="text", not_analyzed_fields=[] if analysed else [field],
+                                                             match_word_as_phrase=mwp, field_options=opts)
+                            q = SymStr(name="q")
+                            node = T.Word(q)
+                            own = inherited = None
+                            ctx0 = {}
+                            if prefix is not None:
+                                ctx0[b.CONTEXT_FIELD_PREFIX] = list(prefix)
+                                ctx0[b.CONTEXT_ANALYZE_MARKER] = analysed
+                            if naming in ("inherited", "own-over-inherited"):
+                                inherited = SymStr(name="inherited_name")
+                                ctx0["name"] = inherited
+                            top = node
+                            fuzz = boost = None
+                            if mod in ("fuzzy", "boosted-fuzzy"):
+                                top = T.Fuzzy(top, 2)
+                                fuzz = 2.0
+                            if mod in ("boost", "boosted-fuzzy"):
+                                top = T.Boost(top, 3)
+                                boost = 3.0
+                            if naming in ("own", "own-over-inherited"):
+                                own = SymStr(name="own_name")
+                                cx.assume(z3.Length(own.t) > 0)       # names given by set_name / auto_name are non-empty
+                                set_name(top, own)
+                            snap = dict(ctx0)
+                            before = frame.snapshot()
+                            items = list(b.visit_iter(top, ctx0))
+                            changed = frame.diff(before, frame.snapshot())
+                            key = "C06-V/word/%s/%s/%s/%s/%s" % (fkey, "analysed" if analysed else "not-analysed", "phrase-mode" if mwp else "word-mode", naming, mod)
+                            if len(items) != 1:
+                                return [(key + "/one-item", False)]
+                            j = items[0].json
+                            star = _decided(cx, q.t == z3.StringVal("*"))
+                            if star is None:
+                                star = False
+                            wild = _decided(cx, z3.InRe(q.t, UNESCAPED_WILDCARD))
+                            if wild is None:
+                                wild = cx.decide(z3.InRe(q.t, UNESCAPED_WILDCARD))
+                            name = own if own is not None else inherited
+                            base = ("match_phrase" if mwp else "match") if analysed else "term"
+                            exp = expected_leaf("word", q, field, analysed, bool(wild), bool(star), opts.get(field, {}), fuzz, boost, name, "none", base)
+                            return [(key + "/clause-is-the-documented-one-for-every-text-and-name", same_json(j, exp)),
+                                    (key + "/context-of-the-caller-untouched", ctx0 == snap and not changed)]
+                        cases.append(core.Case("C06-V/word/%s/%s/%s/%s/%s" % (fkey, analysed, mwp, naming, mod), run,
+                                               functions=["luqum.elasticsearch.visitor.ElasticsearchQueryBuilder." + f for f in
+                                                          ("visit_word", "visit_fuzzy", "visit_boost", "generic_visit", "get_name", "_fields", "_is_analyzed",
+                                                           "_propagate_name")] + ["luqum.elasticsearch.tree.EWord.json", "luqum.elasticsearch.tree.AbstractEItem.json"]))
+
+    for prefix, field in ((None, "text"), (["n", "x"], "n.x")):
+        for neg in (False, True):
+            def run_range(cx, prefix=prefix, field=field, neg=neg):
+                b = EV.ElasticsearchQueryBuilder(default_field="text")
+                lo, hi = SymStr(name="lo"), SymStr(name="hi")
+                cx.assume(z3.Length(lo.t) > 0)      # a bound is a parsed term or phrase: never empty
+                cx.assume(z3.Length(hi.t) > 0)
+                il, ih = SymBool(z3.Bool("include_low")), SymBool(z3.Bool("include_high"))
+                cx.register("include_low", il.t)
+                cx.register("include_high", ih.t)
+                low = T.Prohibit(T.Word(lo)) if neg else T.Word(lo)
+                node = T.Range(low, T.Word(hi), include_low=il, include_high=ih)
+                ctx0 = {}
+                if prefix is not None:
+                    ctx0[b.CONTEXT_FIELD_PREFIX] = list(prefix)
+                    ctx0[b.CONTEXT_ANALYZE_MARKER] = True
+                nm = SymStr(name="range_name")
+                ctx0["name"] = nm
+                items = list(b.visit_iter(node, ctx0))
+                if len(items) != 1:
+                    return [("C06-V/range/%s/one-item" % field, False)]
+                j = items[0].json
+                lov = ("-" + lo) if neg else lo
+                inner = {"_name": nm}
+                lo_star = False if neg else bool(cx.decide(lo.t == z3.StringVal("*")))
+                hi_star = bool(cx.decide(hi.t == z3.StringVal("*")))
+                il_v, ih_v = bool(cx.decide(il.t)), bool(cx.decide(ih.t))
+                if not lo_star:
+                    inner["gte" if il_v else "gt"] = lov
+                if not hi_star:
+                    inner["lte" if ih_v else "lt"] = hi
+                return [("C06-V/range/%s/%s/bounds-under-gte-gt-lte-lt-by-bracket-kind-star-omitted-name-kept" % (field, "negative-low" if neg else "plain"),
+                         same_json(j, {"range": {field: inner}}))]
+            cases.append(core.Case("C06-V/range/%s/%s" % (field, neg), run_range,
+                                   functions=["luqum.elasticsearch.visitor.ElasticsearchQueryBuilder.visit_range",
+                                              "luqum.elasticsearch.visitor.ElasticsearchQueryBuilder._range_bound", "luqum.elasticsearch.tree.ERange.__init__"]))
+
+    def run_phrase(cx):
+        out = []
+        b = EV.ElasticsearchQueryBuilder(default_field="text", not_analyzed_fields=["k"])
+        inner = SymStr(name="phrase_inner")
+        nm = SymStr(name="phrase_name")
+        node = T.Phrase('"' + inner + '"')
+        # not analysed field: a term clause on the text between the quotes (any text)
+        ctx0 = {b.CONTEXT_FIELD_PREFIX: ["k"], b.CONTEXT_ANALYZE_MARKER: False, "name": nm}
+        items = list(b.visit_iter(node, ctx0))
+        held = getattr(items[0], "q", None) if len(items) == 1 else None
+        if not isinstance(held, (str, SymStr)):
+            return [("C06-V/phrase/not-analysed/one-word-item", False)]
+        out.append(("C06-V/phrase/not-analysed/the-item-holds-exactly-the-text-between-the-quotes", S(held) == inner.t))
+        cx.assume(S(held) == inner.t)          # established by the obligation above; lets the decisions below speak about `inner`
+        j = items[0].json
+        star = _decided(cx, inner.t == z3.StringVal("*"))
+        if star is None:
+            star = cx.decide(inner.t == z3.StringVal("*"))
+        wild = _decided(cx, z3.InRe(inner.t, UNESCAPED_WILDCARD))
+        if wild is None:
+            wild = cx.decide(z3.InRe(inner.t, UNESCAPED_WILDCARD))
+        exp = expected_leaf("word", inner, "k", False, bool(wild), bool(star), {}, None, None, nm, "none", "term")
+        out.append(("C06-V/phrase/not-analysed/term-clause-on-the-text-between-the-quotes", same_json(j, exp)))
+        # analysed: concrete phrases (the item folds line breaks with a regular expression substitution), proximity = slop
+        for text, want in (('"a b"', "a b"), ('"he said \\"hi\\""', 'he said \\"hi\\"'), ('"x  y"', "x y")):      # runs of blanks are folded on analysed fields (irrelevant to match_phrase)
+            ph = T.Proximity(T.Phrase(text), 3)
+            it = list(b.visit_iter(ph, {"name": nm}))
+            out.append(("C06-V/phrase/analysed/%s/match_phrase-with-slop-and-name" % want,
+                        same_json(it[0].json, {"match_phrase": {"text": {"query": want, "slop": 3.0, "_name": nm}}}) if len(it) == 1 else False))
+            it = list(b.visit_iter(T.Proximity(T.Phrase(text), 3), {b.CONTEXT_FIELD_PREFIX: ["k"], b.CONTEXT_ANALYZE_MARKER: False}))
+            out.append(("C06-V/phrase/not-analysed/%s/proximity-becomes-fuzziness-on-the-unchanged-text" % want,
+                        it[0].json == {"fuzzy": {"k": {"value": text[1:-1], "fuzziness": 3.0}}} if len(it) == 1 else False))
+        return out
+    cases.append(core.Case("C06-V/phrase", run_phrase, functions=["luqum.elasticsearch.visitor.ElasticsearchQueryBuilder.visit_phrase",
+                                                                  "luqum.elasticsearch.visitor.ElasticsearchQueryBuilder.visit_proximity"]))
     return cases
